@@ -74,6 +74,38 @@ func main() {
 		for _, k := range ks {
 			fmt.Printf("%5d %s\n", cnt[k], k)
 		}
+	case "loops-try":
+		// development aid: bcv loops-try <Cnn> <patch.diff>... – rule G6 alone on each patch applied in memory
+		spec := props[os.Args[2]]
+		for _, pf := range os.Args[3:] {
+			bs, err := os.ReadFile(pf)
+			if err != nil {
+				fmt.Println(pf, "ERR", err)
+				continue
+			}
+			ov, err := applyUnifiedDiff(repoRoot(), string(bs))
+			if err != nil {
+				fmt.Println(pf, "ERR", firstLine(err.Error()))
+				continue
+			}
+			prog, err := LoadProgram(ov, false)
+			if err != nil {
+				fmt.Println(pf, "ERR", firstLine(err.Error()))
+				continue
+			}
+			sub := NewRun(spec.ID, "mutant", prog)
+			sub.CheckLoopBounds(spec.ID+".G6", spec.ID+"_loops.json", loopScopes(spec), 1)
+			n := 0
+			for _, o := range sub.Obls {
+				if !o.OK {
+					n++
+					fmt.Printf("%s FIRES %s | %s | %s\n", pf, o.Key, o.Pos, o.Detail)
+				}
+			}
+			if n == 0 {
+				fmt.Println(pf, "silent")
+			}
+		}
 	case "mutate":
 		os.Exit(runMutateCLI(os.Args[2:]))
 	case "replay":
